@@ -1,12 +1,12 @@
 (* C02 — executable model of the prune planner and executor (crates/core/src/commands/prune.rs).
-   Definitions only.  Blob identity is UNTYPED, as in the code (`used_ids : BTreeMap<BlobId,u8>`).
+   Definitions only.  Blob identity is whatever key the code uses for `PrunePlan.used_ids` (b_key, regenerated from
+   the source: the plain id, or type + id).
    The decision tables come from Extracted.v (regenerated from the source on every run). *)
 From Verif.Base Require Import Tactics.
 From Verif.C02 Require Import ModelBase Extracted.
 Local Open Scope N_scope.
 
 (* ------------------------------------------------------------------ index files *)
-Record blob := mkBlob { b_id : id; b_tpe : btype; b_len : N; b_comp : bool (* uncompressed_length.is_some() *) }.
 Record ipack := mkIPack { p_id : id; p_blobs : list blob; p_time : option Z; p_size : N (* IndexPack::pack_size() *) }.
 Record ifile := mkIFile { f_id : id; f_packs : list ipack; f_del : list ipack }.
 
@@ -66,7 +66,7 @@ Definition umap0 (used : list id) : umap := fun x => if mem x used then Some 0 e
 
 Definition sat_inc (c : N) : N := if c <? cnt_max then c + 1 else cnt_max.
 Definition count_blob (m : umap) (b : blob) : umap :=
-  match m (b_id b) with Some c => upd m (b_id b) (sat_inc c) | None => m end.
+  match m (b_key b) with Some c => upd m (b_key b) (sat_inc c) | None => m end.
 Definition count_used (m : umap) (ps : list ppack) : umap :=
   fold_left (fun m p => fold_left count_blob (pp_blobs p) m) ps m.
 (* PrunePlan::check *)
@@ -80,11 +80,11 @@ Fixpoint pass1 (m : umap) (bs : list blob) : umap * list blob * option (blob * l
   match bs with
   | [] => (m, [], None)
   | b :: tl =>
-      match m (b_id b) with
+      match m (b_key b) with
       | None => let '(m', pre, r) := pass1 m tl in (m', b :: pre, r)
       | Some c =>
           if c =? 0 then let '(m', pre, r) := pass1 m tl in (m', b :: pre, r)
-          else let m1 := upd m (b_id b) (c - 1) in
+          else let m1 := upd m (b_key b) (c - 1) in
                if c - 1 =? 0 then (m1, [], Some (b, tl))
                else let '(m', pre, r) := pass1 m1 tl in (m', b :: pre, r)
       end
@@ -96,10 +96,10 @@ Fixpoint mark_used (m : umap) (bs : list blob) : umap * list blob :=
   match bs with
   | [] => (m, [])
   | b :: tl =>
-      match m (b_id b) with
+      match m (b_key b) with
       | None => mark_used m tl
       | Some c => if c =? 0 then mark_used m tl
-                  else let '(m', u) := mark_used (upd m (b_id b) 0) tl in (m', b :: u)
+                  else let '(m', u) := mark_used (upd m (b_key b) 0) tl in (m', b :: u)
       end
   end.
 
@@ -264,7 +264,7 @@ Definition apply_repack (dec : list (id * todo)) (p : ppack) : ppack :=
 
 (* ------------------------------------------------------------------ check_existing_packs *)
 Inductive perr := EMissing | ENoDecision | ESize | ENoExist | EPanic.
-Definition del_blobs (m : umap) (bs : list blob) : umap := fold_left (fun m b => del m (b_id b)) bs m.
+Definition del_blobs (m : umap) (bs : list blob) : umap := fold_left (fun m b => del m (b_key b)) bs m.
 Definition ex_remove (k : id) (ex : list (id * N)) : list (id * N) := filter (fun e => negb (fst e =? k)) ex.
 
 Fixpoint cep (ex : list (id * N)) (m : umap) (ps : list ppack) : perr + (list (id * N) * umap) :=
@@ -324,8 +324,8 @@ Definition plan := plan_with decide_repack.
 Fixpoint retain (m : umap) (bs : list blob) : umap * list blob :=
   match bs with
   | [] => (m, [])
-  | b :: tl => match m (b_id b) with
-               | Some _ => let '(m', r) := retain (del m (b_id b)) tl in (m', b :: r)
+  | b :: tl => match m (b_key b) with
+               | Some _ => let '(m', r) := retain (del m (b_key b)) tl in (m', b :: r)
                | None => retain m tl
                end
   end.
